@@ -515,6 +515,12 @@ def r5_model(check, prog):
     cm = [c for c in it.calls if c['name'] == '.construct_mapping']
     if len(cm) != 1:
         raise AnalysisError('Model.from_yaml: construct_mapping call not found')
+    check.require(dict(cm[0]['kwargs']).get('deep') == ('const', True),
+                  'R4-reader-deep', 'Model.from_yaml',
+                  'nested objects (the scatterer template, theory, priors) are built '
+                  'before the mapping is used: construct_mapping(..., deep=True)', loc,
+                  fail_detail='construct_mapping is called without deep=True: nested '
+                  'nodes are still empty placeholders when from_yaml reads them')
     allterms = [o.value for o in res.outcomes if o.value is not None] + \
         [t for o in res.outcomes for t, p in o.cond] + \
         [a for c in it.calls for a in c['args']] + \
